@@ -86,6 +86,28 @@ where
         }
     }
     CALLS.with(|c| c.set(c.get() + outcomes as u64 + 2));
+    // "and nothing else": width, fill, alignment, sign and alternate flags must not add or change anything
+    let lower = reference(&a, false);
+    let upper = reference(&a, true);
+    let p7 = 7.min(2 * n);
+    let specs: [(String, &str); 10] = [
+        (format!("{:12x}", a), &lower[..]),
+        (format!("{:>300X}", a), &upper[..]),
+        (format!("{:*^9x}", a), &lower[..]),
+        (format!("{:<40.7x}", a), &lower[..p7]),
+        (format!("{:012.7X}", a), &upper[..p7]),
+        (format!("{:#x}", a), &lower[..]),
+        (format!("{:#.7X}", a), &upper[..p7]),
+        (format!("{:+x}", a), &lower[..]),
+        (format!("{:-^1.0x}", a), ""),
+        (format!("{:0>5.1X}", a), &upper[..1.min(2 * n)]),
+    ];
+    for (i, (got, want)) in specs.iter().enumerate() {
+        fnv(&mut h, got);
+        if got != want {
+            return Err(format!("N = {n}, flagged format #{i}: output {:?} has {} chars, expected exactly the {} digit(s) {:?} and nothing else", &got[..got.len().min(24)], got.len(), want.len(), &want[..want.len().min(24)]));
+        }
+    }
     digest.set(h);
     Ok(CaseInfo::new(n > 0, format!("formatted:{}", if outcomes > 0 { "with-precisions" } else { "plain" })))
 }
